@@ -7,7 +7,7 @@ THEOREMS = ["split_chain", "pieces_def", "swalk_spec", "links_once", "cut_piece_
 RULE = ("loop-free closed graphs on n<=5 cells (n<=6 thorough) x downstream-closed masks x max_len 0..5 through "
         "streams.streams; long chains (up to 40 vertices) x max_len 1..12 for the cutting rule; random forests; "
         "FlwdirRaster.streams (mask / min_sto / custom xs, ys / extra maps) and vectorize on random rasters with "
-        "feature properties; Python's round() on halves; non-trivial = some stream has more than one link")
+        "feature properties; streams(idxs_out=..., max_len >= 2) must cover the links it covers without a maximum length; Python's round() on halves; non-trivial = some stream has more than one link")
 ASSUMPTIONS = ["vertex coordinates and the sampling of extra maps are checked on the implementation's output (oracle); l / max_len and "
                "round() are exact rationals in the model"]
 
